@@ -207,7 +207,7 @@ fn open_case(_t: Tier) -> BoxedStrategy<OpenCase> {
             8,
         ),
         fe_any(),
-        proptest::option::weighted(0.6, (any::<u16>(), 0u8..4)),
+        proptest::option::weighted(0.65, (any::<u16>(), 0u8..8)),
         0u8..8,
     )
         .prop_map(|(degree, polys, points, v, wrong, shape)| OpenCase { degree, polys, points, v, wrong, shape })
@@ -275,7 +275,7 @@ fn check_open(ctx: &Ctx, c: &OpenCase) -> PResult {
     let mut wrong_kind = "none";
     if let Some((pos, kind)) = c.wrong {
         let i = pick(pos, entries.len());
-        match kind % 4 {
+        match kind % 8 {
             0 => {
                 entries[i].1 += F::one();
                 wrong_kind = "wrong evaluation";
@@ -288,7 +288,7 @@ fn check_open(ctx: &Ctx, c: &OpenCase) -> PResult {
                 entries[i].2 = G1Affine::from(G1Projective::from(entries[i].2) + G1Projective::from(srs.powers[1]));
                 wrong_kind = "commitment of another polynomial";
             }
-            _ => {
+            3 => {
                 if entries.len() >= 2 {
                     let j = (i + 1) % entries.len();
                     let (wi, wj) = (entries[i].0, entries[j].0);
@@ -297,12 +297,51 @@ fn check_open(ctx: &Ctx, c: &OpenCase) -> PResult {
                     wrong_kind = "witnesses swapped";
                 }
             }
+            // two entries wrong by amounts that cancel when the batch gives
+            // them the same weight (each is false on its own)
+            4 => {
+                if entries.len() >= 2 {
+                    let j = (i + 1) % entries.len();
+                    let (yi, yj) = (entries[i].1, entries[j].1);
+                    entries[i].1 = yj;
+                    entries[j].1 = yi;
+                    wrong_kind = "evaluations swapped between two entries";
+                }
+            }
+            5 => {
+                if entries.len() >= 2 {
+                    let j = (i + 1) % entries.len();
+                    let d = c.v.0 + F::one();
+                    entries[i].1 += d;
+                    entries[j].1 -= d;
+                    wrong_kind = "two evaluations off by (d, -d)";
+                }
+            }
+            6 => {
+                if entries.len() >= 2 {
+                    let j = (i + 1) % entries.len();
+                    let d = G1Projective::from(srs.powers[1]) * (c.v.0 + F::one());
+                    entries[i].2 = G1Affine::from(G1Projective::from(entries[i].2) + d);
+                    entries[j].2 = G1Affine::from(G1Projective::from(entries[j].2) - d);
+                    wrong_kind = "two commitments off by (D, -D)";
+                }
+            }
+            _ => {
+                if entries.len() >= 2 {
+                    // first and last entry (weights 1 and u^(k-1))
+                    let j = entries.len() - 1;
+                    let d = c.v.0 + F::from(2u64);
+                    entries[0].1 += d;
+                    entries[j].1 -= d;
+                    wrong_kind = "first and last evaluation off by (d, -d)";
+                }
+            }
         }
     }
     // expected verdict: every entry individually true
     let truth: Vec<bool> = points.iter().zip(&entries).map(|(z, (w, y, cm))| opening_true(&srs, z, w, y, cm)).collect();
     let expect_ok = truth.iter().all(|t| *t);
-    let cls = format!("batch of {} ({}) {}", if entries.len() == 1 { "1" } else { "2+" }, wrong_kind, if expect_ok { "all true" } else { "one false" });
+    let cls = format!("batch of {} ({}) {}", if entries.len() == 1 { "1" } else { "2+" }, wrong_kind, if expect_ok { "all true" } else { "some false" });
     ctx.eval(&cls);
     let r = no_panic("batch-check-panic", || k::kzg_batch_check(&pp, &points, &entries, b"c20"))?;
     ensure!(
@@ -334,6 +373,6 @@ pub fn props() -> Vec<(Box<dyn PropDyn>, u32, u32)> {
 }
 
 pub fn describe(ctx: &Ctx) {
-    ctx.rule("cases: setup(N) for N 1..160 (512 thorough) with seeded secrets and every trim size 0..N+7; polynomials of length around the key size (key length -3..+3) incl. the zero polynomial; 1..8 polynomials opened at points incl. 0, 1 and domain elements, either aggregated at one point (flatten) or as a batch over several points, with zero or ONE wrong entry at a generated position (wrong evaluation / wrong witness / commitment of another polynomial / swapped witnesses), empty batch, length mismatch. Oracle: pairing relations on the parsed public bytes e([x^i]g,h)=e([x^(i-1)]g,xh); trim = prefix t+7 or TruncatedDegreeTooLarge; commit = own MSM, additive, homogeneous, identity for zero, PolynomialDegreeTooLarge beyond the key; batch_check Ok iff every entry passes an independent e(C - y g, h) = e(W, xh - zh) check. non-trivial = degree >= 2 (srs), polynomial of degree >= 1 (commit), batch >= 2 or a wrong entry (openings); distinct by case");
+    ctx.rule("cases: setup(N) for N 1..160 (512 thorough) with seeded secrets and every trim size 0..N+7; polynomials of length around the key size (key length -3..+3) incl. the zero polynomial; 1..8 polynomials opened at points incl. 0, 1 and domain elements, either aggregated at one point (flatten) or as a batch over several points, with zero or ONE wrong entry at a generated position (wrong evaluation / wrong witness / commitment of another polynomial / swapped witnesses) or TWO wrong entries whose errors cancel under equal batch weights (evaluations swapped, evaluations off by (d,-d), commitments off by (D,-D), first and last entry), empty batch, length mismatch. Oracle: pairing relations on the parsed public bytes e([x^i]g,h)=e([x^(i-1)]g,xh); trim = prefix t+7 or TruncatedDegreeTooLarge; commit = own MSM, additive, homogeneous, identity for zero, PolynomialDegreeTooLarge beyond the key; batch_check Ok iff every entry passes an independent e(C - y g, h) = e(W, xh - zh) check. non-trivial = degree >= 2 (srs), polynomial of degree >= 1 (commit), batch >= 2 or a wrong entry (openings); distinct by case");
     ctx.assume("dusk-bls12_381 pairing and group arithmetic are trusted; batch verification soundness holds up to the negligible probability of the random linear combination");
 }
